@@ -109,7 +109,8 @@ fn judge_suffix(ctx: &mut Ctx, b: &[u8], tag: &str) {
             SMsg::Data(d) => d.length.is_some(),
         };
         if has_len && ctx.rng.chance(1, 8) {
-            let tail = *ctx.rng.pick(&[0x1_0000_0000usize - b.len() + 5, 0x1_0000_0000, 0x1_0000_000f, 0x2_0000_0003, 1 << 40]);
+            let k = ctx.rng.below(16) as usize;
+            let tail = *ctx.rng.pick(&[(0x1_0000_0000usize + 12 + k).saturating_sub(b.len()), (0x2_0000_0000usize + 12 + k).saturating_sub(b.len()), 0x1_0000_0000, 0x1_0000_000f, 1 << 40]);
             let run = exec::decode_msg(b, Some(o), Rk::VirtualTail(tail));
             ctx.rep.bucket("suffix.virtual_4gib");
             match &run.out {
